@@ -84,6 +84,8 @@ pub fn take_last_panic() -> Option<String> {
 pub struct SeqMonitor {
     held: RefCell<Vec<(usize, gdsl::verif::Mode)>>,
     pub acquisitions: std::cell::Cell<u64>,
+    /// identity (address) of the lock acquired last
+    pub last_lock: std::cell::Cell<usize>,
 }
 
 impl gdsl::verif::LockHook for SeqMonitor {
@@ -104,6 +106,7 @@ impl gdsl::verif::LockHook for SeqMonitor {
     }
     fn acquired(&self, lock: usize, mode: gdsl::verif::Mode) {
         self.acquisitions.set(self.acquisitions.get() + 1);
+        self.last_lock.set(lock);
         self.held.borrow_mut().push((lock, mode));
     }
     fn released(&self, lock: usize, mode: gdsl::verif::Mode) {
@@ -122,6 +125,7 @@ pub fn ensure_monitor() -> Rc<SeqMonitor> {
             let mon = Rc::new(SeqMonitor {
                 held: RefCell::new(Vec::new()),
                 acquisitions: std::cell::Cell::new(0),
+                last_lock: std::cell::Cell::new(0),
             });
             gdsl::verif::set_lock_hook(Some(mon.clone()));
             *m = Some(mon);
